@@ -84,11 +84,9 @@ class Report:
                            where="fixtures", detail=detail)
 
     def check_floors(self):
-        if self.violations:
-            return  # a failing rule already explains a low count
         for rid in self.order:
             r = self.rules[rid]
-            if len(r.keys) < r.floor and r.failed == 0:
+            if len(r.keys) + r.failed < r.floor:
                 self.violation("%s:floor:%s" % (self.prop, rid), rid,
                                "rule %s matched %d distinct instance(s), below the floor of %d confirmed by hand: an anchor is missing or the rule went blind"
                                % (rid, len(r.keys), r.floor), where="(whole crate)")
